@@ -517,7 +517,7 @@ pub fn property() -> Property {
                 name: "api-random",
                 plan: |t| match t {
                     Tier::Quick => Plan::Random { cases: 100_000, max_len: 240 },
-                    Tier::Thorough => Plan::Random { cases: 2_000_000, max_len: 240 },
+                    Tier::Thorough => Plan::Random { cases: 8_000_000, max_len: 240 },
                 },
                 case: case_random_api,
                 min_classes: &[],
@@ -526,7 +526,7 @@ pub fn property() -> Property {
                 name: "script",
                 plan: |t| match t {
                     Tier::Quick => Plan::Random { cases: 150_000, max_len: 120 },
-                    Tier::Thorough => Plan::Random { cases: 800_000, max_len: 160 },
+                    Tier::Thorough => Plan::Random { cases: 3_200_000, max_len: 160 },
                 },
                 case: case_script,
                 min_classes: &[("refused-alias", 500), ("function-defined", 500), ("invocation-of-function", 300), ("remove-through-alias", 500)],
